@@ -596,7 +596,12 @@ class CallsMixin:
             if name == 'append':
                 ln, arr = self.seq_parts(obj, st)
                 v = self.coerce(vals[0], et, st)
-                self.store(obj, T.seq_mk(obj.ty, ln + 1, z3.Store(arr, ln, self.as_term(v, st))), st)
+                narr = z3.Store(arr, ln, self.as_term(v, st))
+                # membership in the appended list = membership in the old list or being the new element
+                if not hasattr(self, 'concat_prov'):
+                    self.concat_prov = {}
+                self.concat_prov[narr.get_id()] = (narr, ln, arr, I1, z3.K(z3.IntSort(), self.as_term(v, st)))
+                self.store(obj, T.seq_mk(obj.ty, ln + 1, narr), st)
                 self.mark_escaped(vals[0], st)
                 return self.const(None)
             if name == 'extend':
